@@ -629,9 +629,13 @@ def _stochastic_body(ctx, case):
     off = "last-epoch-missing" if len(trace) == epochs else "length-off"
     ctx.check(full_trace, f"trace-has-start-plus-one-value-per-epoch[{off}]", f"{len(trace)} values for {epochs} epochs")
     ctx.require(len(trace) >= 1 and np.isfinite(trace[0]), "trace-starts-finite", trace)
-    # a failed epoch may report +inf (it is rolled back); NaN must never be accepted as the best model
-    has_nan = bool(np.isnan(trace).any()) or any(bool(np.isnan(f).any()) for f in M.factor_matrices)
-    ctx.require(not has_nan, "no-nan-in-trace-or-returned-model", trace)
+    # a failed epoch may report +inf or NaN (it is rolled back); NaN must never be accepted as the best model:
+    # the returned model is free of NaN and, below, its estimate equals the smallest non-NaN trace value
+    has_nan = any(bool(np.isnan(f).any()) for f in M.factor_matrices)
+    ctx.require(not has_nan, "no-nan-in-returned-model", trace)
+    if np.isnan(trace).any():
+        ctx.label("nan-epoch-rolled-back")
+        trace = np.where(np.isnan(trace), np.inf, trace)
     run_min = np.minimum.accumulate(trace)
     failed = bool(np.any(trace[1:] > run_min[:-1])) if len(trace) > 1 else False
     ctx.label("failed-epoch" if failed else "no-failed-epoch", f"epochs={epochs}")
